@@ -204,13 +204,20 @@ class scrypt(  # type: ignore[misc]
         else:
             raise uh.exc.MalformedHashError(cls, "malformed settings field")
 
+        try:
+            salt = b64s_decode(salt.encode("ascii"))
+            digest = b64s_decode(digest.encode("ascii")) if digest else None
+        except TypeError:
+            # b64s_decode() reports foreign characters with TypeError
+            raise uh.exc.MalformedHashError(cls) from None
+
         return dict(
             ident=IDENT_SCRYPT,
             rounds=int(nstr[3:]),
             block_size=int(bstr[2:]),
             parallelism=int(pstr[2:]),
-            salt=b64s_decode(salt.encode("ascii")),
-            checksum=b64s_decode(digest.encode("ascii")) if digest else None,
+            salt=salt,
+            checksum=digest,
         )
 
     #
